@@ -42,6 +42,7 @@ func (d *ManyToOne) Set(data GenericDataType) {
 	for {
 		writeIndex := atomic.AddUint64(&d.writeIndex, 1)
 		idx := writeIndex % uint64(len(d.buffer))
+	reload:
 		old := atomic.LoadPointer(&d.buffer[idx])
 
 		if old != nil &&
@@ -57,8 +58,12 @@ func (d *ManyToOne) Set(data GenericDataType) {
 		}
 
 		if !atomic.CompareAndSwapPointer(&d.buffer[idx], old, unsafe.Pointer(newBucket)) {
-			log.Println("Diode set collision: consider using a larger diode")
-			continue
+			// The slot changed between the load and the swap (the reader
+			// emptied it or another writer stored a bucket). Examine it again
+			// instead of giving the position up: a position that is claimed
+			// but never filled stalls the reader until the next lap, and
+			// everything behind it is discarded on Close without an alert.
+			goto reload
 		}
 
 		return
